@@ -23,6 +23,7 @@ for h in $( [ -z "$CAMPAIGN_SEEDS" ] && ls -d harmless/*/ ); do
   echo "$n done"
 done
 echo "== seeded changes =="
+[ -n "$CAMPAIGN_HARMLESS_ONLY" ] && { echo ALLDONE; exit 0; }
 for d in seeded/${CAMPAIGN_SEEDS:-*}/; do
   n=$(basename $d); C=${n%%-*}
   /venv/bin/python harness/seedtest.py $C $(pwd)/seeded/$n --keep $n > $out/seedlog_$n.txt 2>&1
